@@ -151,7 +151,8 @@ def parse_google_drive_url(url):
         return None
 
     if path[-1] == "pub":
-        if path[2] != "e":
+        # NOTE: a public link looks like /<type>/d/e/<id>/pub
+        if path[2] != "e" or len(path) < 5:
             return None
 
         return GoogleDrivePublicLink(drive_type, path[3])
